@@ -400,6 +400,9 @@ class World:
 
     def dispatch(self, e, data, src=None):
         src = src or self.peer_of(e)
+        log = self.__dict__.setdefault('delivered', {}).setdefault(e, [])      # the last datagrams handed to e (material for forgeries: C03)
+        log.append(bytes(data))
+        del log[:-8]
         return self.guarded(e, 'dispatch_message', self.ctl[e].dispatch_message, bytes(data),
                             ip_address(addr_of(e, self.v6)), addr_of(src, self.v6))
 
